@@ -161,10 +161,10 @@ class Parser:
             return Node("dot", flags=dict(flags))
         if c == "^":
             self.i += 1
-            return Node("bol")
+            return Node("bol", flags=dict(flags))
         if c == "$":
             self.i += 1
-            return Node("eol")
+            return Node("eol", flags=dict(flags))
         if c == "\\":
             ch = self.t[self.i + 1]
             self.i += 2
@@ -394,6 +394,8 @@ def build(node, nfa, assign, alphabet):
     elif k == "hole":
         nfa.add(s, "H:" + node.name, e)
     elif k in ("bol", "eol"):
+        if getattr(node, "flags", {}).get("m"):
+            raise RxError("an anchor under the multi-line flag is a line anchor, not a whole-text anchor")
         nfa.add_eps(s, e)   # anchors are handled by the caller (whole-pattern anchoring)
     else:
         raise RxError("unsupported node " + k)
